@@ -22,7 +22,8 @@ CONSTANTS N,              \* BUFFER_SIZE (power of 2)
           Origins,        \* possible initial values of the four counters
           OverflowChecks, \* TRUE: debug build (checked arithmetic panics)
           RelaxEmpty,     \* see LinQueue!LqRelaxEmpty
-          Prefill         \* TRUE: the ring starts holding 0..N-1 (a pool allocator's free list)
+          Prefill,        \* TRUE: the ring starts holding 0..N-1 (a pool allocator's free list)
+          Mode            \* L1 oracle: "fifo" (queue, C02/C18) or "bag" (pool allocator: any free id may be handed out, C13)
 
 VARIABLES head, tail, etail, dhead,   \* the four AtomicU32
           buf,                        \* slot contents, index 0..N-1
@@ -32,7 +33,7 @@ VARIABLES head, tail, etail, dhead,   \* the four AtomicU32
 rvars == <<head, tail, etail, dhead, buf>>
 vars  == <<head, tail, etail, dhead, buf, pc, reg, cands, pend>>
 
-LQ == INSTANCE LinQueue WITH LqThreads <- Procs, LqCap <- N, LqRelaxEmpty <- RelaxEmpty
+LQ == INSTANCE LinQueue WITH LqThreads <- Procs, LqCap <- N, LqRelaxEmpty <- RelaxEmpty, LqMode <- Mode
 
 Add(x, k)  == (x + k) % W
 Sub(x, y)  == (x - y + W) % W
@@ -289,5 +290,5 @@ NoPanic == \A p \in Procs : pc[p] # "panic"
 ActualQ == [i \in 1..Sub(tail, head) |-> buf[Idx(Add(head, i - 1))]]
 AllIdle == \A p \in Procs : pc[p] = "idle"
 \* whenever no operation is in progress the concrete content is what the atomic queue would hold
-InvContents == AllIdle => (ActualQ \in LQ!LqContents(cands))
+InvContents == AllIdle => LQ!LqAgrees(cands, ActualQ)
 =============================================================================
